@@ -19,6 +19,8 @@ ORIG_POOL = multiprocessing.Pool
 
 class SimForkPool:
     def __init__(self, processes=None, initializer=None, initargs=(), maxtasksperchild=None):
+        if processes is not None and processes < 1:
+            raise ValueError("Number of processes must be at least 1")  # as multiprocessing.Pool does
         sim = seams.SIM
         cfg = sim.cfg.get("pool") or {}
         self.sim = sim
